@@ -134,3 +134,71 @@ Proof.
   exact (conj (se3_inverse_left p H) (conj (se3_inverse_right p H) (relative_se3_self p H))).
 Qed.
 Print Assumptions C09_translated_se3_inverse_is_inverse.
+
+(* ---- group laws (added after every property had a check): closure, inverse of a product, involution, uniqueness of
+   the inverse, and the relative-pose helper as a left-invariant difference that chains and inverts ---- *)
+Theorem C09_se3_closed_under_product_and_inverse : forall a b : PoseR, SE3 a -> SE3 b ->
+  SE3 (pmul a b) /\ SE3 (se3_inverse a) /\ SE3 (relative_se3 a b).
+Proof.
+  intros a b Ha Hb. split; [now apply se3_product_closed|]. split; [now apply se3_inverse_closed|].
+  rewrite relative_se3_def. apply se3_product_closed; [now apply se3_inverse_closed|exact Hb].
+Qed.
+Print Assumptions C09_se3_closed_under_product_and_inverse.
+Theorem C09_se3_inverse_involutive : forall p : PoseR, SE3 p -> se3_inverse (se3_inverse p) = p.
+Proof. exact se3_inverse_involutive. Qed.
+Print Assumptions C09_se3_inverse_involutive.
+Theorem C09_se3_inverse_of_product : forall a b : PoseR, SE3 a ->
+  se3_inverse (pmul a b) = pmul (se3_inverse b) (se3_inverse a).
+Proof. exact se3_inverse_of_product. Qed.
+Print Assumptions C09_se3_inverse_of_product.
+Theorem C09_se3_inverse_unique : forall p q : PoseR, SE3 p -> pmul q p = pI -> q = se3_inverse p.
+Proof. exact se3_inverse_unique. Qed.
+Print Assumptions C09_se3_inverse_unique.
+Theorem C09_relative_se3_left_invariant : forall c a b : PoseR, SE3 c ->
+  relative_se3 (pmul c a) (pmul c b) = relative_se3 a b.
+Proof. exact relative_se3_left_invariant. Qed.
+Print Assumptions C09_relative_se3_left_invariant.
+Theorem C09_relative_se3_chain : forall a b c : PoseR, SE3 b ->
+  pmul (relative_se3 a b) (relative_se3 b c) = relative_se3 a c.
+Proof. exact relative_se3_chain. Qed.
+Print Assumptions C09_relative_se3_chain.
+Theorem C09_relative_se3_inverse_swaps : forall a b : PoseR, SE3 a -> SE3 b ->
+  se3_inverse (relative_se3 a b) = relative_se3 b a.
+Proof. exact relative_se3_inverse. Qed.
+Print Assumptions C09_relative_se3_inverse_swaps.
+Theorem C09_relative_se3_recovers_second : forall a b : PoseR, SE3 a -> pmul a (relative_se3 a b) = b.
+Proof. exact relative_se3_recovers. Qed.
+Print Assumptions C09_relative_se3_recovers_second.
+Theorem C09_relative_so3_chain_and_closure : forall a b c : M3R, SO3 a -> SO3 b ->
+  mm (relative_so3 a b) (relative_so3 b c) = relative_so3 a c /\ SO3 (relative_so3 a b).
+Proof. intros a b c Ha Hb. split; [now apply relative_so3_chain|now apply relative_so3_closed]. Qed.
+Print Assumptions C09_relative_so3_chain_and_closure.
+(* Sim(3): the product of two similarity matrices is the similarity matrix of the product rotation, the composed
+   translation and the product scale, and sim3_scale recovers that product scale *)
+Theorem C09_sim3_product : forall (r1 r2 : M3R) (t1 t2 : V3R) (s1 s2 : R),
+  pmul (sim3 r1 t1 s1) (sim3 r2 t2 s2) = sim3 (mm r1 r2) (vadd (vscale s1 (mv r1 t2)) t1) (s1 * s2).
+Proof. exact sim3_product. Qed.
+Print Assumptions C09_sim3_product.
+Theorem C09_sim3_scale_of_product : forall (r1 r2 : M3R) (t1 t2 : V3R) (s1 s2 c : R), SO3 r1 -> SO3 r2 ->
+  c * c * c = det (prot (pmul (sim3 r1 t1 s1) (sim3 r2 t2 s2))) -> c = s1 * s2.
+Proof. exact sim3_scale_of_product. Qed.
+Print Assumptions C09_sim3_scale_of_product.
+Theorem C09_sim3_inverse_is_similarity_with_reciprocal_scale : forall (r : M3R) (t : V3R) (s : R), s <> 0 ->
+  sim3_inverse_with s (sim3 r t s) = sim3 (mt r) (vopp (mv (mt r) (vscale (1 / s) t))) (1 / s).
+Proof. exact sim3_inverse_is_sim3. Qed.
+Print Assumptions C09_sim3_inverse_is_similarity_with_reciprocal_scale.
+Theorem C09_sim3_inverse_extends_se3_inverse : forall (r : M3R) (t : V3R),
+  sim3_inverse_with 1 (sim3 r t 1) = se3_inverse (mkPose r t).
+Proof. exact sim3_inverse_unit_scale_is_se3_inverse. Qed.
+Print Assumptions C09_sim3_inverse_extends_se3_inverse.
+(* the same laws of the translated source itself (through the translator tie) *)
+Theorem C09_translated_relative_se3_group_laws : forall a b c : PoseR, SE3 a -> SE3 b ->
+  pmul (relative_se3_gen a b) (relative_se3_gen b c) = relative_se3_gen a c /\
+  se3_inverse_gen (relative_se3_gen a b) = relative_se3_gen b a /\
+  pmul a (relative_se3_gen a b) = b /\ se3_inverse_gen (se3_inverse_gen a) = a.
+Proof.
+  intros a b c Ha Hb. rewrite !relative_se3_gen_is_model, !se3_inverse_gen_is_model.
+  split; [now apply relative_se3_chain|]. split; [now apply relative_se3_inverse|].
+  split; [now apply relative_se3_recovers|now apply se3_inverse_involutive].
+Qed.
+Print Assumptions C09_translated_relative_se3_group_laws.
